@@ -283,6 +283,10 @@ func uniqueMap(t *rapid.T, headerTags bool, bits map[string]uint) *gostatsd.Metr
 		if rapid.Bool().Draw(t, "othertag") {
 			m.Tags = append(m.Tags, "k:v")
 		}
+		if rapid.IntRange(0, 5).Draw(t, "zero-counter") == 0 {
+			// a counter series whose value is zero is still a series: it travels (next to an identifiable datapoint of this map)
+			pts = append(pts, &gostatsd.Metric{Name: "zero." + m.Name, Type: gostatsd.COUNTER, Value: 0, Rate: 1, Tags: m.Tags.Copy(), Source: m.Source, Timestamp: m.Timestamp})
+		}
 		switch rapid.IntRange(0, 3).Draw(t, "type") {
 		case 0:
 			// every counter datapoint of a series carries its own bit, so presence in a body is observable
